@@ -190,6 +190,9 @@ void h_script_vnacal(void)
 #endif
     CHECK(p_scalar == 3 && p_vector == 4 && p_unknown == 5,
 	    "handles equal those of the fault-free history");
+#ifdef S_CORRELATED
+    CHECK(p_corr == 6, "correlated handle equals that of the fault-free history");
+#endif
     (void)p_corr; (void)sv;
 #if VERIF_FAIL_AT == 0 && !defined(VERIF_NATIVE)
     CHECK(verif_alloc_count == EXPECT_K, "infra: allocation count differs from the natively measured K");
